@@ -271,3 +271,4 @@ def check(run):
     run.trusted.append("specs/lexical.json: identifier quoting rules of MySQL (backtick, doubled), PostgreSQL and SQLite (double quote, doubled)")
     run.assumptions.append("derive-generated Iden impls (fast path in prepare) are decided under C19")
     run.assumptions.append("identifiers containing NUL are outside the engines' domain")
+    run.delegate("C19", "identifiers of derived Iden types are written by the generated code that C19 decides")
